@@ -107,6 +107,10 @@ func (p *vPodInfo) finished() bool {
 	return sym.Or(p.phase == string(v1.PodFailed), p.phase == string(v1.PodSucceeded))
 }
 
+// vMalformedSlots are delete-slots values the decoder rejects as a whole
+// (syntax errors, and well-formed lists with an entry that is not an int32).
+var vMalformedSlots = []string{"x", "[1,", "[1.5]", "[1, 5000000000]", "[0, \"1\", 2]", "[\"0\"]"}
+
 // vBuildSnap builds the symbolic snapshot. N pods at most, replicas <= R, at
 // most K delete slots.
 func vBuildSnap(N, R, K, opts int) *vSnap {
@@ -132,6 +136,13 @@ func vBuildSnap(N, R, K, opts int) *vSnap {
 	}
 	if k > 0 {
 		set.Annotations = map[string]string{helper.DeleteSlotsAnn: sym.SlotsJSON(s.slots)}
+	}
+	if opts&oWildSlots != 0 && k == 0 {
+		// an annotation value that does not decode to a list of int32 means "no slots"
+		if j := sym.Pick("malformed", len(vMalformedSlots)+1); j > 0 {
+			set.Annotations = map[string]string{helper.DeleteSlotsAnn: vMalformedSlots[j-1]}
+			sym.Cover("delete-slots annotation that does not decode")
+		}
 	}
 	// desired set oracle
 	s.desired = make([]bool, s.n)
